@@ -1043,6 +1043,7 @@ int liberasurecode_fragments_needed(int desc,
                                     int *fragments_needed)
 {
     int ret = 0;
+    int i, n;
 
     ec_backend_t instance = liberasurecode_backend_instance_get_by_desc(desc);
     if (NULL == instance) {
@@ -1067,7 +1068,25 @@ int liberasurecode_fragments_needed(int desc,
         goto out_error;
     }
 
-    /* FIXME preprocessing */
+    /*
+     * The backends index per-fragment tables and bitmaps with these values:
+     * every entry has to name a fragment of this stripe.
+     */
+    n = instance->args.uargs.k + instance->args.uargs.m;
+    for (i = 0; fragments_to_reconstruct[i] > -1; i++) {
+        if (fragments_to_reconstruct[i] >= n) {
+            log_error("Index of a fragment to reconstruct is out of range.");
+            ret = -EINVALIDPARAMS;
+            goto out_error;
+        }
+    }
+    for (i = 0; fragments_to_exclude[i] > -1; i++) {
+        if (fragments_to_exclude[i] >= n) {
+            log_error("Index of a fragment to exclude is out of range.");
+            ret = -EINVALIDPARAMS;
+            goto out_error;
+        }
+    }
 
     /* call the backend fragments_needed function passing it desc instance */
     ret = instance->common.ops->fragments_needed(
